@@ -171,3 +171,12 @@ impl BlockFilter {
         );
     }
 }
+
+#[cfg(feature = "verif-hooks")]
+impl BlockFilter {
+    /// Runs one pass of the (otherwise background, notification driven) filter
+    /// builder synchronously.
+    pub fn verif_build_filter_data(&self) {
+        self.build_filter_data()
+    }
+}
